@@ -189,7 +189,8 @@ PyResolveUse(ws, u) == PyResolveSet(ws, u.file, UseName(ws, u), ExclOf(ws, u))
 
 (* Negative clause: files whose definitions may ever be returned to U.     *)
 VisibleFiles(ws, U) ==
-    {U} \cup UNION { ImportClosure(ws, ConftestAt(Chain(DirOf[U])[j]), {})
+    \* U itself and what U's own import statements reach (A.2: a module's namespace holds what it imports)
+    {U} \cup ImportClosure(ws, U, {}) \cup UNION { ImportClosure(ws, ConftestAt(Chain(DirOf[U])[j]), {})
                      : j \in 1..Len(Chain(DirOf[U])) }
         \cup PluginFiles(ws) \cup ThirdFiles(ws)
 
@@ -200,15 +201,16 @@ PyVisibleNames(ws, f, names) == { n \in names : PyResolveSet(ws, f, n, NoDef) # 
 PyUnused(ws) ==
     { D \in AllDefs(ws) : RoleOf[D.file] # "third" /\ ~DefItem(ws, D).autouse /\ PyRefs(ws, D) = {} }
 
-(* The CLI identifies a fixture by (file, name): a redefinition in the same file is one entry.   *)
-(* Unused = project, no definition of that entry is autouse, no usage resolves to any of them.  *)
+(* The CLI identifies a fixture by (file, name): a redefinition in the same file is one entry, and the fixture pytest    *)
+(* registers for that entry is the LAST definition (the later binding replaces the earlier one in the module).          *)
+(* Unused = project, the entry's last definition is not autouse, no usage resolves to any definition of the entry.      *)
 PyUnusedNames(ws) ==
     { [file |-> D.file, name |-> DefItem(ws, D).name] : D \in
         { X \in AllDefs(ws) :
             /\ RoleOf[X.file] # "third"
+            /\ ~DefItem(ws, LastDefIn(ws, X.file, DefItem(ws, X).name, NoDef)).autouse
             /\ \A Y \in AllDefs(ws) :
-                  (Y.file = X.file /\ DefItem(ws, Y).name = DefItem(ws, X).name)
-                  => (~DefItem(ws, Y).autouse /\ PyRefs(ws, Y) = {}) } }
+                  (Y.file = X.file /\ DefItem(ws, Y).name = DefItem(ws, X).name) => PyRefs(ws, Y) = {} } }
 
 (* Dependency edges of a definition: each parameter resolved from its file *)
 PyDepTargets(ws, D) ==
